@@ -30,6 +30,7 @@ type c09Opts struct {
 	nstreams  int
 	server    func(p *ePair, st *Stream) // script for each stream the server accepts (sync mode)
 	onData    func(st *Stream, r BufferReader)
+	slices    []*SizePercentPair         // size classes (nil: the pair's default, 16-byte slices)
 	preopen   bool                       // the (single) stream exists on both ends before the workload starts (and before the peer stalls)
 	serverAny func(p *ePair, st *Stream) // with preopen: runs on the server's end at any moment of the client's script (lazy thread)
 }
@@ -46,7 +47,10 @@ func c09Body(o c09Opts) func() {
 			}
 			s.SetCallbacks(rc)
 		}
-		po := pairOpts{FreeSmall: o.freeSmall, QueueCap: o.queueCap}
+		po := pairOpts{FreeSmall: o.freeSmall, QueueCap: o.queueCap, Slices: o.slices}
+		if o.slices != nil {
+			po.FreeOthers = -1 // (own size classes: everything allocatable)
+		}
 		if o.callback {
 			po.ListenCB = lcb
 		}
@@ -251,6 +255,26 @@ func TestVerif_C09(t *testing.T) {
 				st.BufferReader().ReadBytes(10)
 				st.ReleaseReadAndReuse()
 				c09Flush(st, 9, 0, 4)
+			}}, 1, 2),
+		// the answer is written with Reserve after ReleaseReadAndReuse and is larger than the reused slice: it travels as
+		// [empty slice] -> [data]; the receiver still holds a slice (part of an earlier message, not released) when it arrives
+		mk(c09Opts{name: "reuse-then-reserve-larger-receiver-holds-a-slice",
+			slices: []*SizePercentPair{{Size: 8, Percent: 1}, {Size: 32, Percent: 1}, {Size: 1 << 19, Percent: 98}},
+			client: func(p *ePair, k int, st *Stream) {
+				c09Flush(st, 1, 0, 6)
+				st.SetReadDeadline(vrt.Now().Add(vrt.Second))
+				st.BufferReader().ReadBytes(4) // part of the server's first message: held, not released
+				st.BufferReader().ReadBytes(4 + 20)
+			},
+			server: func(p *ePair, st *Stream) {
+				c09Flush(st, 9, 0, 8)
+				st.SetReadDeadline(vrt.Now().Add(vrt.Second))
+				st.BufferReader().ReadBytes(6)
+				st.ReleaseReadAndReuse()
+				if b, err := st.BufferWriter().Reserve(20); err == nil {
+					copy(b, patBytes(9, 8, 20))
+					st.Flush(false)
+				}
 			}}, 1, 2),
 		mk(c09Opts{name: "response-after-client-close",
 			client: func(p *ePair, k int, st *Stream) { c09Flush(st, 1, 0, 5); st.Close() },
